@@ -137,7 +137,7 @@ def build_driver(name, srcs, repo=None, lib=None, extra=(), link_extra=(), cxx=N
         if r.returncode != 0:
             raise RuntimeError("link failed: %s\n%s" % (name, r.stderr[-4000:]))
         os.replace(tmp, exe)
-        for old in sorted(glob.glob(os.path.join(BUILD, "bin", name + "_*")), key=os.path.getmtime)[:-3]:
+        for old in sorted(glob.glob(os.path.join(BUILD, "bin", name + "_*")), key=os.path.getmtime)[:-8]:
             try:
                 os.remove(old)
             except OSError:
